@@ -115,25 +115,40 @@ func runReplace(c trieg.Case, r *pb.Rec) error {
 	if !parseReplace(replaced, text, c.Repl, rs) {
 		return fmt.Errorf("Replace(%q, %q) with patterns %q = %q: not U0 R^k1 U1 ... with 1<=kj<=occurrences for the covered regions %v", text, c.Repl, c.Patterns, replaced, rs)
 	}
-	if utf8.ValidString(text) {
+	{
+		// rune by rune (a byte that is not part of a valid encoding is a rune of width one): inside a covered
+		// region the mask, outside the original bytes, verbatim. Occurrences of valid patterns start and end on
+		// rune boundaries of the text, also when the text around them is not valid UTF-8.
 		var want strings.Builder
-		for i, ru := range text {
-			in := false
+		aligned := true
+		for i := 0; i < len(text); {
+			_, size := utf8.DecodeRuneInString(text[i:])
+			in, inEnd := false, false
 			for _, rg := range rs {
 				if i >= rg.start && i < rg.stop {
 					in = true
 				}
+				if i+size-1 >= rg.start && i+size-1 < rg.stop {
+					inEnd = true
+				}
+			}
+			if in != inEnd {
+				aligned = false // cannot happen for valid patterns; then nothing is claimed here
 			}
 			if in {
 				want.WriteRune(c.Mask)
 			} else {
-				want.WriteRune(ru)
+				want.WriteString(text[i : i+size])
 			}
+			i += size
 		}
-		if masked != want.String() {
-			return fmt.Errorf("ReplaceWithMask(%q, %q) with patterns %q = %q want %q", text, c.Mask, c.Patterns, masked, want.String())
+		for _, p := range c.Patterns {
+			aligned = aligned && utf8.ValidString(p)
 		}
-		if utf8.RuneCountInString(masked) != utf8.RuneCountInString(text) {
+		if aligned && masked != want.String() {
+			return fmt.Errorf("ReplaceWithMask(%q, %q) with patterns %q = %q want %q (covered runes masked, all other bytes unchanged)", text, c.Mask, c.Patterns, masked, want.String())
+		}
+		if aligned && utf8.RuneCountInString(masked) != utf8.RuneCountInString(text) {
 			return fmt.Errorf("ReplaceWithMask changed the rune count")
 		}
 	}
